@@ -553,6 +553,9 @@ type EffObl struct {
 	OK      bool
 	Witness string
 	Pos     string
+	// Undecided: the structural check could not decide this obligation (reason);
+	// accepted only when listed as skipped on the reference tree.
+	Undecided string
 }
 
 func (g *EffGraph) flagConst(name string) uint64 {
@@ -1424,5 +1427,495 @@ func (g *EffGraph) deadContextObligations() []*EffObl {
 		}
 	}
 	out = append(out, &EffObl{Name: "effects/status-writes-found", Kind: "cover", Desc: fmt.Sprintf("vacuity guard: %d writes of a non-live status analysed", n), OK: n > 0})
+	return out
+}
+
+// ---------------------------------------------------------------------------
+// C04: limits of the instruction compiler are reported as compilation panics
+// ---------------------------------------------------------------------------
+// CompileQueue converts exactly *CompilationPanic into an error; any other
+// panic value raised while compiling instructions escapes to the host.  Every
+// explicit panic in package ircomp must therefore carry a *CompilationPanic
+// (or re-raise a recovered value), except in functions declared
+// `effects internal-assertion` (consistency checks that no input can trigger).
+
+func (g *EffGraph) compilePanicObligations() []*EffObl {
+	var out []*EffObl
+	exempt := map[*ssa.Function]int{}
+	for _, ct := range g.eng.all {
+		for _, cl := range ct.byKind("effects") {
+			if strings.Contains(cl.Text, "internal-assertion") {
+				if fn := g.eng.findFunc(ct.PkgPath, ct.Key); fn != nil {
+					n := 1
+					fmt.Sscanf(strings.TrimSpace(strings.SplitN(cl.Text, "internal-assertion", 2)[1]), "%d", &n)
+					exempt[fn] = n
+				}
+			}
+		}
+	}
+	n := 0
+	for _, fn := range g.funcs {
+		root := fn
+		for root.Parent() != nil {
+			root = root.Parent()
+		}
+		if root.Pkg == nil || !strings.HasSuffix(root.Pkg.Pkg.Path(), "/ircomp") {
+			continue
+		}
+		var bad []string
+		has := false
+		for _, b := range fn.Blocks {
+			for _, in := range b.Instrs {
+				p, ok := in.(*ssa.Panic)
+				if !ok {
+					continue
+				}
+				has = true
+				switch x := p.X.(type) {
+				case *ssa.MakeInterface:
+					if strings.HasSuffix(x.X.Type().String(), "ircomp.CompilationPanic") {
+						continue
+					}
+					bad = append(bad, fmt.Sprintf("panic(%s) at %s", x.X.Type().String(), relPos(g.eng, g.eng.fset.Position(p.Pos()))))
+				default:
+					// re-panic of a recovered value (interface typed): allowed
+					if call, ok := p.X.(*ssa.Call); ok {
+						if bi, ok := call.Call.Value.(*ssa.Builtin); ok && bi.Name() == "recover" {
+							continue
+						}
+					}
+					if _, isIface := p.X.Type().Underlying().(*types.Interface); isIface {
+						continue
+					}
+					bad = append(bad, fmt.Sprintf("panic of %s at %s", p.X.Type().String(), relPos(g.eng, g.eng.fset.Position(p.Pos()))))
+				}
+			}
+		}
+		if !has {
+			continue
+		}
+		n++
+		o := &EffObl{Name: effName(fn) + "/effect:!string-panic", Kind: "effect", Pos: relPos(g.eng, g.eng.fset.Position(fn.Pos())),
+			Desc: "explicit panics carry a *CompilationPanic (converted to a compile error by CompileQueue)"}
+		if k := exempt[fn]; k > 0 && len(bad) <= k {
+			o.OK = true
+			o.Desc += fmt.Sprintf(" (assumed: %d site(s) declared internal-assertion, not triggerable by input: %s)", len(bad), strings.Join(bad, "; "))
+		} else if len(bad) == 0 {
+			o.OK = true
+		} else {
+			o.Witness = strings.Join(bad, "; ")
+		}
+		out = append(out, o)
+	}
+	out = append(out, &EffObl{Name: "effects/ircomp-panic-sites-found", Kind: "cover", Desc: fmt.Sprintf("vacuity guard: %d functions with explicit panics analysed", n), OK: n > 0})
+	return out
+}
+
+// ---------------------------------------------------------------------------
+// C04: the declared arity of a Go function covers every argument it reads
+// ---------------------------------------------------------------------------
+// GoCont.Arg(n) is c.args[n] with no range check, and c.args has exactly the
+// length the function was registered with (NewGoFunction / SetEnvGoFunc
+// nArgs).  An index >= nArgs is a Go runtime panic that no Lua construct can
+// catch.  For every registration with a resolvable body and a constant arity,
+// the largest index the body (and the helpers it passes its continuation to)
+// can hand to Arg must be below the arity.  Index expressions are evaluated
+// over constants, parameters, phis and additions; anything else is reported as
+// undecidable for that registration (not claimed).
+
+type argReq struct {
+	max     int            // largest constant index read (-1: none)
+	maxPos  token.Pos      // where
+	params  map[int]int    // parameter index -> largest constant offset added to it
+	unknown []token.Pos    // indices that could not be evaluated
+}
+
+func newArgReq() *argReq { return &argReq{max: -1, params: map[int]int{}} }
+
+type idxVal struct {
+	ok     bool
+	consts []int       // possible constant values
+	params map[int]int // param -> offset
+}
+
+func evalIdx(v ssa.Value, fn *ssa.Function, depth int) idxVal {
+	if depth > 8 {
+		return idxVal{}
+	}
+	switch x := v.(type) {
+	case *ssa.Const:
+		if x.Value != nil && x.Value.Kind() == constant.Int {
+			if i, ok := constant.Int64Val(x.Value); ok {
+				return idxVal{ok: true, consts: []int{int(i)}}
+			}
+		}
+	case *ssa.Parameter:
+		for i, p := range fn.Params {
+			if p == x {
+				return idxVal{ok: true, params: map[int]int{i: 0}}
+			}
+		}
+	case *ssa.Phi:
+		out := idxVal{ok: true, params: map[int]int{}}
+		for _, e := range x.Edges {
+			ev := evalIdx(e, fn, depth+1)
+			if !ev.ok {
+				return idxVal{}
+			}
+			out.consts = append(out.consts, ev.consts...)
+			for p, o := range ev.params {
+				if old, has := out.params[p]; !has || o > old {
+					out.params[p] = o
+				}
+			}
+		}
+		return out
+	case *ssa.BinOp:
+		if x.Op == token.ADD {
+			a, b := evalIdx(x.X, fn, depth+1), evalIdx(x.Y, fn, depth+1)
+			if a.ok && b.ok && len(b.params) == 0 && len(b.consts) > 0 {
+				out := idxVal{ok: true, params: map[int]int{}}
+				mb := b.consts[0]
+				for _, c := range b.consts {
+					if c > mb {
+						mb = c
+					}
+				}
+				for _, c := range a.consts {
+					out.consts = append(out.consts, c+mb)
+				}
+				for p, o := range a.params {
+					out.params[p] = o + mb
+				}
+				return out
+			}
+		}
+	case *ssa.Convert:
+		return evalIdx(x.X, fn, depth+1)
+	case *ssa.ChangeType:
+		return evalIdx(x.X, fn, depth+1)
+	}
+	return idxVal{}
+}
+
+func isGoContPtr(t types.Type) bool {
+	p, ok := t.Underlying().(*types.Pointer)
+	if !ok {
+		return false
+	}
+	n, ok := p.Elem().(*types.Named)
+	return ok && n.Obj().Name() == "GoCont" && n.Obj().Pkg() != nil && strings.HasSuffix(n.Obj().Pkg().Path(), "/runtime")
+}
+
+type argReqKey struct {
+	fn *ssa.Function
+	ci int // index of the *GoCont parameter (or -1-i for free variable i)
+}
+
+func (g *EffGraph) argReqOf(fn *ssa.Function, ci int, memo map[argReqKey]*argReq, stack map[argReqKey]bool) *argReq {
+	key := argReqKey{fn, ci}
+	if r, ok := memo[key]; ok {
+		return r
+	}
+	req := newArgReq()
+	if stack[key] {
+		return req // recursion: the outer activation accounts for the body
+	}
+	stack[key] = true
+	defer delete(stack, key)
+	if len(fn.Blocks) == 0 {
+		memo[key] = req
+		return req
+	}
+	var cval ssa.Value
+	if ci >= 0 {
+		if ci >= len(fn.Params) {
+			memo[key] = req
+			return req
+		}
+		cval = fn.Params[ci]
+	} else {
+		fi := -1 - ci
+		if fi >= len(fn.FreeVars) {
+			memo[key] = req
+			return req
+		}
+		cval = fn.FreeVars[fi]
+	}
+	// aliases of the continuation inside fn (phis of itself only)
+	alias := map[ssa.Value]bool{cval: true}
+	// lower bound on c.NArgs() implied by the branches that dominate a block:
+	// nArgs never exceeds the number of slots, so an index below that bound
+	// can only be read when the slot exists.
+	isNArgs := func(v ssa.Value) bool {
+		call, ok := v.(*ssa.Call)
+		if !ok {
+			return false
+		}
+		cal := call.Call.StaticCallee()
+		return cal != nil && cal.Name() == "NArgs" && len(call.Call.Args) == 1 && alias[call.Call.Args[0]] && cal.Signature.Recv() != nil && isGoContPtr(cal.Signature.Recv().Type())
+	}
+	constOf := func(v ssa.Value) (int, bool) {
+		c, ok := v.(*ssa.Const)
+		if !ok || c.Value == nil || c.Value.Kind() != constant.Int {
+			return 0, false
+		}
+		i, ok := constant.Int64Val(c.Value)
+		return int(i), ok
+	}
+	implied := func(cond ssa.Value, branch bool) int {
+		bo, ok := cond.(*ssa.BinOp)
+		if !ok {
+			return 0
+		}
+		op, x, y := bo.Op, bo.X, bo.Y
+		if _, isC := constOf(x); isC { // K op X  ->  X op' K
+			x, y = y, x
+			switch op {
+			case token.LSS:
+				op = token.GTR
+			case token.LEQ:
+				op = token.GEQ
+			case token.GTR:
+				op = token.LSS
+			case token.GEQ:
+				op = token.LEQ
+			}
+		}
+		// err := c.CheckNArgs(k) / c.Check1Arg(): err == nil implies NArgs() >= k
+		if yc, isC := y.(*ssa.Const); isC && yc.IsNil() {
+			if call, ok := x.(*ssa.Call); ok {
+				if cal := call.Call.StaticCallee(); cal != nil && cal.Signature.Recv() != nil && isGoContPtr(cal.Signature.Recv().Type()) && len(call.Call.Args) >= 1 && alias[call.Call.Args[0]] {
+					k := -1
+					switch cal.Name() {
+					case "Check1Arg":
+						k = 1
+					case "CheckNArgs":
+						if len(call.Call.Args) == 2 {
+							if kk, ok := constOf(call.Call.Args[1]); ok {
+								k = kk
+							}
+						}
+					}
+					if k >= 0 && ((op == token.EQL && branch) || (op == token.NEQ && !branch)) {
+						return k
+					}
+				}
+			}
+			return 0
+		}
+		k, okk := constOf(y)
+		if !okk || !isNArgs(x) {
+			return 0
+		}
+		if branch {
+			switch op {
+			case token.GEQ, token.EQL:
+				return k
+			case token.GTR:
+				return k + 1
+			case token.NEQ:
+				if k == 0 {
+					return 1
+				}
+			}
+		} else {
+			switch op {
+			case token.LSS, token.NEQ:
+				return k
+			case token.LEQ:
+				return k + 1
+			case token.EQL:
+				if k == 0 {
+					return 1
+				}
+			}
+		}
+		return 0
+	}
+	lbCache := map[*ssa.BasicBlock]int{}
+	var guardLB func(b *ssa.BasicBlock) int
+	guardLB = func(b *ssa.BasicBlock) int {
+		if v, ok := lbCache[b]; ok {
+			return v
+		}
+		lbCache[b] = 0
+		lb := 0
+		for d := b.Idom(); d != nil; d = d.Idom() {
+			if len(d.Instrs) == 0 {
+				continue
+			}
+			ifi, ok := d.Instrs[len(d.Instrs)-1].(*ssa.If)
+			if !ok || len(d.Succs) != 2 {
+				continue
+			}
+			for si, succ := range d.Succs {
+				if len(succ.Preds) == 1 && (succ == b || succ.Dominates(b)) {
+					if v := implied(ifi.Cond, si == 0); v > lb {
+						lb = v
+					}
+				}
+			}
+		}
+		lbCache[b] = lb
+		return lb
+	}
+	var curLB int
+	need := func(iv idxVal, pos token.Pos) {
+		if !iv.ok {
+			req.unknown = append(req.unknown, pos)
+			return
+		}
+		for _, c := range iv.consts {
+			if c < curLB {
+				continue // the dominating NArgs test guarantees the slot
+			}
+			if c > req.max {
+				req.max, req.maxPos = c, pos
+			}
+		}
+		for p, o := range iv.params {
+			if old, has := req.params[p]; !has || o > old {
+				req.params[p] = o
+			}
+		}
+	}
+	apply := func(sub *argReq, args []ssa.Value, pos token.Pos) {
+		if sub.max > req.max && sub.max >= curLB {
+			req.max, req.maxPos = sub.max, pos
+		}
+		req.unknown = append(req.unknown, sub.unknown...)
+		for p, o := range sub.params {
+			if p >= len(args) {
+				req.unknown = append(req.unknown, pos)
+				continue
+			}
+			iv := evalIdx(args[p], fn, 0)
+			if iv.ok {
+				for i := range iv.consts {
+					iv.consts[i] += o
+				}
+				for q := range iv.params {
+					iv.params[q] += o
+				}
+			}
+			need(iv, pos)
+		}
+	}
+	for _, b := range fn.Blocks {
+		curLB = guardLB(b)
+		for _, in := range b.Instrs {
+			switch x := in.(type) {
+			case ssa.CallInstruction:
+				com := x.Common()
+				callee := com.StaticCallee()
+				if callee == nil {
+					continue // interface / dynamic calls cannot index args by position (Cont has no such method)
+				}
+				for ai, a := range com.Args {
+					if !alias[a] {
+						continue
+					}
+					if callee.Name() == "Arg" && ai == 0 && callee.Signature.Recv() != nil && isGoContPtr(callee.Signature.Recv().Type()) && len(com.Args) == 2 {
+						need(evalIdx(com.Args[1], fn, 0), x.Pos())
+						continue
+					}
+					if !g.inModule[callee] {
+						continue
+					}
+					apply(g.argReqOf(callee, ai, memo, stack), com.Args, x.Pos())
+				}
+				// closures created here and called/deferred directly
+			case *ssa.MakeClosure:
+				cf, _ := x.Fn.(*ssa.Function)
+				if cf == nil {
+					continue
+				}
+				for bi, bv := range x.Bindings {
+					if alias[bv] {
+						sub := g.argReqOf(cf, -1-bi, memo, stack)
+						// parameters of the closure are not tracked to its call sites
+						if len(sub.params) > 0 {
+							req.unknown = append(req.unknown, x.Pos())
+						}
+						if sub.max > req.max {
+							req.max, req.maxPos = sub.max, sub.maxPos
+						}
+						req.unknown = append(req.unknown, sub.unknown...)
+					}
+				}
+			}
+		}
+	}
+	memo[key] = req
+	return req
+}
+
+func (g *EffGraph) arityObligations() []*EffObl {
+	var out []*EffObl
+	memo := map[argReqKey]*argReq{}
+	seen := map[string]int{}
+	n := 0
+	for _, fn := range g.funcs {
+		for _, b := range fn.Blocks {
+			for _, in := range b.Instrs {
+				call, ok := in.(*ssa.Call)
+				if !ok {
+					continue
+				}
+				callee := call.Call.StaticCallee()
+				if callee == nil || callee.Pkg == nil || !strings.HasSuffix(callee.Pkg.Pkg.Path(), "/runtime") {
+					continue
+				}
+				var fv, nameV, arV ssa.Value
+				switch callee.Name() {
+				case "SetEnvGoFunc":
+					if len(call.Call.Args) == 6 {
+						fv, nameV, arV = call.Call.Args[3], call.Call.Args[2], call.Call.Args[4]
+					}
+				case "NewGoFunction":
+					if len(call.Call.Args) == 4 {
+						fv, nameV, arV = call.Call.Args[0], call.Call.Args[1], call.Call.Args[2]
+					}
+				}
+				if fv == nil || fn.Name() == "SetEnvGoFunc" {
+					continue
+				}
+				pos := relPos(g.eng, g.eng.fset.Position(call.Pos()))
+				lname := "?"
+				if c, ok := nameV.(*ssa.Const); ok && c.Value != nil && c.Value.Kind() == constant.String {
+					lname = constant.StringVal(c.Value)
+				}
+				body := funcOf(fv)
+				ar, okA := constUint(arV)
+				if body == nil || !okA {
+					out = append(out, &EffObl{Name: effName(fn) + "/effect:arity(" + lname + ")", Kind: "effect", Pos: pos, Desc: "registered arity covers the argument indices read",
+						Undecided: "function value or arity not a compile-time constant"})
+					continue
+				}
+				n++
+				name := effName(body) + "/effect:arity(" + lname + ")"
+				seen[name]++
+				if seen[name] > 1 {
+					name = fmt.Sprintf("%s#%d", name, seen[name])
+				}
+				req := g.argReqOf(body, 1, memo, map[argReqKey]bool{})
+				o := &EffObl{Name: name, Kind: "effect", Pos: pos,
+					Desc: fmt.Sprintf("every argument index read through GoCont.Arg without a dominating NArgs test (largest: %d) is below the registered arity %d", req.max, ar)}
+				switch {
+				case len(req.unknown) > 0:
+					o.Undecided = "argument index not evaluable at " + relPos(g.eng, g.eng.fset.Position(req.unknown[0]))
+				case len(req.params) > 0:
+					o.Undecided = "argument index depends on a parameter of the registered function"
+				case req.max >= int(ar):
+					o.Witness = fmt.Sprintf("Arg(%d) at %s but registered with %d argument slot(s) at %s", req.max, relPos(g.eng, g.eng.fset.Position(req.maxPos)), ar, pos)
+				default:
+					o.OK = true
+				}
+				out = append(out, o)
+			}
+		}
+	}
+	out = append(out, &EffObl{Name: "effects/arity-registrations-found", Kind: "cover", Desc: fmt.Sprintf("vacuity guard: %d registrations analysed", n), OK: n > 50})
 	return out
 }
